@@ -196,4 +196,17 @@ PROPS = {
         quick=dict(checks=150, timeout=900),
         thorough=dict(checks=600, shards=8, timeout=3000),
     ),
+    "C11": dict(
+        run="^TestC11$",
+        level="exploration",
+        rule=("scripts against the real MessageStreamer through a scripted StreamConnection: flow-control limits (max messages 1,2,3,5,1000; max bytes below / at / above the payload sizes 12, 200, 5000), "
+              "1-8 initial messages of mixed sizes, then 2-9 steps drawn from {stream ack, stream nack, gRPC-style nack (modify-deadline 0), Acknowledge outside the stream, publish more, wait}; "
+              "oracle: at every Send/SendBatch the messages outstanding from the client's point of view stay within max messages and max bytes (except a single oversized message sent on an empty "
+              "window), no delivery is sent twice while outstanding, and whenever the client-side window has room for a deliverable message that fits, a send happens within 2 s (a stall must "
+              "reproduce 3 of 3); non-trivial = the window filled up at least once and capacity was later freed; distinct by hash of the script"),
+        assumptions=["real clock; leases are 10 minutes so nothing is redelivered on its own within a script", "a lease lapse without ack/nack is not treated as a capacity-freeing event (the statement lists ack, nack and external ack)",
+                     "the stream's own goroutine interleavings are sampled by running in real time, not enumerated"],
+        quick=dict(checks=120, timeout=900),
+        thorough=dict(checks=500, shards=8, timeout=3000),
+    ),
 }
